@@ -382,12 +382,53 @@ VAR_VALUES = ["0", "1", "-1", "5", "-7", "63", "64", "9223372036854775807", "-92
               "1/0", "x", "  4 ", "-x", "2**62", "z,7", "q"]
 
 
+# what a variable may hold besides hand-picked strings: every literal form the expression side uses, behind
+# every unary prefix, with and without blanks around it (`x=-010`, `x=" +0x10 "`, `x=~16#ff`, `x=--08`, …)
+VALUE_PREFIXES = ["", "-", "+", "- ", " -", "--", "-+", "!", "~"]
+VALUE_NUMBERS = [0, 1, 7, 8, 9, 10, 63, 64, 255, 1 << 31, I64MAX, 1 << 63, (1 << 64) - 1]
+
+
+def value_forms(n):
+    """`<prefix><literal>` for every prefix and every literal form of n, bare and with surrounding blanks"""
+    out = []
+    for f in lit_forms(n) + ["0" + str(n), "00" + str(n)]:        # zero-padded decimal digits too (octal or an error in bash)
+        for pre in VALUE_PREFIXES:
+            out.append(pre + f)
+            out.append(" " + pre + f + " ")
+    return out
+
+
+def gen_value(rng):
+    n = rng.choice(VALUE_NUMBERS + [rng.randrange(0, 100), rng.randrange(0, 1 << 64)])
+    return rng.choice(value_forms(n))
+
+
 def gen_env(rng):
     env = {}
     for v in VARS:
-        if rng.random() < 0.7:
+        r = rng.random()
+        if r < 0.5:
             env[v] = rng.choice(VAR_VALUES)
+        elif r < 0.75:
+            env[v] = gen_value(rng)
     return env
+
+
+def deref_cases():
+    """exhaustive: a variable holding <prefix><literal>, read through a bare name in several positions"""
+    cs = []
+    seen = set()
+    for n in VALUE_NUMBERS:
+        for v in value_forms(n):
+            if v in seen:
+                continue
+            seen.add(v)
+            cs.append(("exh_deref", "x", {"x": v}, None))
+            cs.append(("exh_deref", "x+1", {"x": v}, None))
+            cs.append(("exh_deref", "x++", {"x": v}, None))
+            cs.append(("exh_deref", "y", {"x": v, "y": "x"}, None))          # chain y -> x -> value
+            cs.append(("exh_deref", "A[x&3]=x, y*=x", {"x": v, "y": "3"}, None))
+    return cs
 
 
 # ------------------------------------------------------------------------------------------------
@@ -750,7 +791,7 @@ def run(ctx):
         cases.append((b, render(t, rng, style), env, features(t), sexpr(t)))
     for b, t, env, style in random_cases(rng, ctx.size(20000, 300000), ctx.size(3, 5)):
         cases.append((b, render(t, rng, style), env, features(t), sexpr(t)))
-    for b, e, env, tag in special_cases(rng, ctx.size(4000, 40000)):
+    for b, e, env, tag in special_cases(rng, ctx.size(4000, 40000)) + deref_cases():
         cases.append((b, e, env, {tag} if tag else set(), None))
     # the scripts put the text inside $(( )): keep texts the shell itself would rewrite out of the eval stream
     n = len(cases)
@@ -822,11 +863,14 @@ def run(ctx):
     for j in (k, 2 * k, n - 1):
         ctx.sample({"expr": cases[j][1], "env": cases[j][2], "brush": hout[n + j], "model": mout[n + j], "bash": bash[j][:2]})
     contexts(ctx)
+    deref_contexts(ctx)
     ctx.cov["rule"] = ("exhaustive: 20 binary ops x 15^2 boundary operands, 4 unary, 4 inc/dec, 11 assignment ops x 15^2, every ordered pair "
                        "of binary operators in both groupings with minimal parentheses, unary/assignment/conditional against every binary "
                        "operator, laziness cases, 25 boundary values in 13 literal forms; seeded random trees to depth %d over all operators "
                        "with random variable contents (numbers, empty, names, expressions, cycles), rendered minimal / spaced / redundant "
-                       "parentheses+spacing; a malformed stream (token deleted/inserted/replaced); fixed witnesses of recorded defects; "
+                       "parentheses+spacing; variable contents: the hand-picked list plus <unary prefix><literal form> (9 prefixes x 15 forms x 13 "
+                       "boundary values, bare and blank-padded), exhaustively through bare-name dereference (x, x+1, x++, chain, subscript) "
+                       "and in (( )), let, ${Q[x]}, ${S:x}; a malformed stream (token deleted/inserted/replaced); fixed witnesses of recorded defects; "
                        "non-trivial = contains an operator; each case: brush parser+evaluator in-process vs Lean model, brush binary vs bash"
                        % ctx.size(3, 5))
     ctx.assumptions += ["bash 5.2.15 `$(( ))` is the reference for value, error/no-error and variables afterwards",
@@ -901,6 +945,79 @@ def contexts(ctx):
                 elif nv < 10:
                     nv += 1
                     ctx.violation("brush and bash disagree in context %s" % names[k], case)
+
+
+def deref_contexts(ctx):
+    """A variable holding <prefix><literal>, dereferenced by bare name where the shell itself evaluates arithmetic:
+    (( )), let, an array subscript and a substring offset; brush binary against bash."""
+    vals, seen = [], set()
+    for n in VALUE_NUMBERS:
+        for v in value_forms(n):
+            if v not in seen:
+                seen.add(v)
+                vals.append(v)
+    chunks = lib.chunked(vals, lib.NCPU)
+
+    def script(vs, base):
+        lines = ["Q=(" + " ".join("q%d" % i for i in range(70)) + ")", "S=abcdefghijklmnopqrstuvwxyzABCDEFGHIJKLMNOPQRSTUVWXYZ0123456789abcdefgh"]
+        for k, v in enumerate(vs):
+            i = base + k
+            lines += ["x=%s" % sq(v), "(( x++ ))", 'echo "#%d a $? $x"' % i,
+                      "x=%s" % sq(v), "let 'x+=1'", 'echo "#%d b $? $x"' % i,
+                      "x=%s" % sq(v), 'echo "#%d c ${Q[x]}"' % i,
+                      "x=%s" % sq(v), 'echo "#%d d ${S:x}"' % i,
+                      "x=%s y=x" % sq(v), 'echo "#%d e ${S:y:2}"' % i]
+        return "\n".join(lines) + "\n"
+    jobs, base = [], 0
+    for ch in chunks:
+        jobs.append((script(ch, base), base))
+        base += len(ch)
+
+    def one(job):
+        scr, _ = job
+        return run_script("brush", scr)[1], run_script("bash", scr)[1]
+    outs = lib.pmap(one, jobs)
+
+    def grab(text, d):
+        for l in text.split("\n"):
+            m = re.match(r"^#(\d+) ([a-e]) ?(.*)$", l)
+            if m:
+                d[(int(m.group(1)), m.group(2))] = m.group(3)
+    db, do = {}, {}
+    for rb, ro in outs:
+        if "panicked at" in rb:
+            ctx.violation("brush panicked while dereferencing a variable in arithmetic", {"output_tail": rb[-400:]})
+        grab(rb, db)
+        grab(ro, do)
+    names = {"a": "(( x++ ))", "b": "let x+=1", "c": "${Q[x]}", "d": "${S:x}", "e": "${S:y:2} with y=x"}
+    nv = 0
+    for i, v in enumerate(vals):
+        for k in "abcde":
+            ctx.count(("derefctx", k, v), bucket="deref_context_" + k)
+            b, o = db.get((i, k)), do.get((i, k))
+            if b == o:
+                continue
+            case = {"context": names[k], "x": v, "brush": b, "bash": o}
+            cl = deref_ctx_clause(k, v, b, o)
+            if cl:
+                ctx.bucket("known:" + cl)
+                ctx.known_or_violation(cl, "brush and bash disagree on a variable dereferenced in %s" % names[k], case)
+            elif nv < 15:
+                nv += 1
+                ctx.violation("brush and bash disagree on a variable dereferenced in %s" % names[k], case)
+
+
+def deref_ctx_clause(k, v, b, o):
+    """recorded defect classes, by the feature of the variable's contents"""
+    w = v.strip()
+    if re.match(r"^(--|\+\+)", w) or re.match(r"^[-+!~]\s*(--|\+\+)", w):
+        return "double_sign_tokenization"        # brush: parse error; bash: two unary signs
+    m = re.search(r"0[xX][0-9a-fA-F]*$|[0-9]+$", w)
+    if m and "#" not in w:
+        t = m.group(0)
+        if re.fullmatch(r"0[xX]", t) or (re.fullmatch(r"0[xX][0-9a-fA-F]+|0[0-7]*|[1-9][0-9]*", t) and lit_value(t)[1]):
+            return "literal_overflow_rejected"   # brush: parse error; bash: wraps
+    return None
 
 
 def replay(ctx, rp):
